@@ -345,7 +345,43 @@ static Macro *find_macro(Token *tok) {
   return hashmap_get2(&macros, tok->loc, tok->len);
 }
 
+static Token *paste(Token *lhs, Token *rhs);
+
+// Apply the ## operators in the replacement list of an object-like
+// macro (function-like macros do this during parameter substitution).
+static Token *paste_objlike_body(Token *tok) {
+  Token head = {};
+  Token *cur = &head;
+
+  while (tok && tok->kind != TK_EOF) {
+    if (equal(tok, "##")) {
+      if (cur == &head)
+        error_tok(tok, "'##' cannot appear at start of macro expansion");
+      if (tok->next->kind == TK_EOF)
+        error_tok(tok, "'##' cannot appear at end of macro expansion");
+
+      Token *next = tok->next->next;
+      *cur = *paste(cur, tok->next);
+      tok = next;
+      continue;
+    }
+
+    cur = cur->next = copy_token(tok);
+    tok = tok->next;
+  }
+
+  cur->next = tok;
+  return head.next;
+}
+
 static Macro *add_macro(char *name, bool is_objlike, Token *body) {
+  if (is_objlike)
+    for (Token *t = body; t && t->kind != TK_EOF; t = t->next)
+      if (equal(t, "##")) {
+        body = paste_objlike_body(body);
+        break;
+      }
+
   Macro *m = calloc(1, sizeof(Macro));
   m->name = name;
   m->is_objlike = is_objlike;
